@@ -33,3 +33,31 @@ Example former_witness_ok :
   de_value true [57;1;255;44;1;0] = Ok (VSet (KInt U16) [KeyZ 300], []) /\
   skip_value [57;1;255;44;1;0] = Ok [].
 Proof. split; vm_compute; reflexivity. Qed.
+
+(* ---------- additions: the skip walker and split_off never return more than they were given ---------- *)
+From Aldrin Require Import Codec.Utf8Converse.
+
+Lemma skip_bounded b r : skip_value b = Ok r -> exists p, b = p ++ r /\ p <> [].
+Proof.
+  intros H. apply skip_exact in H as [v H]. pose proof H as H0.
+  destruct (de_value_prefix _ _ _ _ H) as (p & -> & _). exists p. split; [reflexivity|].
+  unfold de_value in H0. apply de_consumes in H0. intros ->. cbn [app] in H0. lia.
+Qed.
+
+Lemma value_len_bounded b n : value_len b = Ok n -> 1 <= n <= lenN b.
+Proof.
+  unfold value_len. destruct (skip_value b) as [r|] eqn:E; cbn [bind]; [|discriminate].
+  destruct (skip_bounded _ _ E) as (p & -> & Hp). intros H. apply Ok_inj in H. subst n.
+  rewrite lenN_app. destruct p; [contradiction|]. rewrite lenN_cons. lia.
+Qed.
+
+Lemma split_bounded b p r : split_off b = Ok (p, r) ->
+  b = p ++ r /\ p <> [] /\ skip_value b = Ok r /\ lenN p <= lenN b.
+Proof.
+  unfold split_off, value_len. destruct (skip_value b) as [r0|] eqn:E; cbn [bind]; [|discriminate].
+  destruct (skip_bounded _ _ E) as (p0 & -> & Hp). rewrite lenN_app.
+  replace (lenN p0 + lenN r0 - lenN r0) with (lenN p0) by lia.
+  unfold lenN at 1 2. rewrite Nat2N.id, firstn_app, Nat.sub_diag, firstn_all, skipn_app, Nat.sub_diag, skipn_all.
+  cbn [firstn skipn app]. rewrite app_nil_r. intros H. apply Ok_inj in H. inversion H; subst.
+  repeat split; auto. lia.
+Qed.
